@@ -32,6 +32,7 @@ def run(ctx):
 
     ctx.rule('STR-MARKERS', 'per container: writer arm (string type -> chunk id / key) composed with reader arm (chunk id / key -> string type) is the identity on the types written, and every type written is restored', floor=18)
     from engine.arms import switch_arm_stmts
+    from engine.util import assigned_lvalues
 
     def enum_names(f, stmts):
         return {x['n'] for st in stmts for x in f.walk(st) if x['k'] == 'DeclRefExpr' and x.get('dk') == 'enum' and STR(x['n'])}
@@ -180,3 +181,43 @@ def run(ctx):
 
     from rules.C09 import reject_before_mutate
     reject_before_mutate(ctx, prog)
+
+    # ------------------------------------------------------------------ LOOP-MODE
+    ctx.rule('LOOP-MODE', 'WAV smpl chunk: the loop-type code the writer emits for SF_LOOP_FORWARD / BACKWARD / ALTERNATING is mapped back to the same mode by the reader switch '
+             '(writer: conditional chain on loops [].mode in wav_write_header; reader: switch in wav_read_smpl_chunk)', floor=3)
+    from engine.arms import switch_arm_stmts
+    from engine.util import assigned_lvalues
+    E = prog.enums
+    w = prog.fn('wav_write_header', 'wav.c')
+    wmap = {}
+
+    def chain(f_, n_):
+        n_ = f_.unwrap(n_)
+        if n_['k'] != 'ConditionalOperator':
+            return
+        c_, a_, b_ = [f_.N[k_] for k_ in n_['kids']]
+        cu = f_.unwrap(c_)
+        if cu['k'] == 'BinaryOperator' and cu.get('op') == '==':
+            kv = f_.unwrap(f_.N[cu['kids'][1]]).get('v')
+            av = f_.unwrap(a_).get('v')
+            if kv is not None and av is not None:
+                wmap[kv] = av
+        chain(f_, b_)
+    for lv, a, r in assigned_lvalues(w):
+        if r is not None and w.unwrap(r)['k'] == 'ConditionalOperator' and 'SF_LOOP_' in w.s(r):
+            chain(w, r)
+    rd = prog.fn('wav_read_smpl_chunk', 'wav.c')
+    rmap = {}
+    for sw in [n for n in rd.walk() if n['k'] == 'SwitchStmt']:
+        for vals, names, has_def, stmts in switch_arm_stmts(rd, sw):
+            for st in stmts:
+                for lv, a, r in assigned_lvalues(rd, st):
+                    if lv.endswith('.mode') and r is not None and rd.unwrap(r).get('v') is not None:
+                        for v in vals:
+                            rmap[v] = rd.unwrap(r)['v']
+    ctx.require(len(wmap) >= 3 and len(rmap) >= 3, 'loop mode tables not found (writer %s, reader %s)' % (wmap, rmap))
+    names = {E[k]: k for k in ('SF_LOOP_NONE', 'SF_LOOP_FORWARD', 'SF_LOOP_BACKWARD', 'SF_LOOP_ALTERNATING') if k in E}
+    for mode, code in sorted(wmap.items()):
+        back = rmap.get(code)
+        ctx.ob('LOOP-MODE', names.get(mode, str(mode)), back == mode, rd.loc(rd.body), 'writer code %s for %s is read back as %s' % (code, names.get(mode, mode), names.get(back, back)), None)
+
